@@ -378,7 +378,8 @@ Definition alias_code (sid : Z) (tbl : list pkt) (a : aobs) : nat :=
 Definition inj_code (sid : Z) (c : cfg) (tbl : list pkt) (o : iobs) : nat :=
   let '(_, qi, ocalls) := o in
   match map (tb tbl) ocalls with
-  | [] => 91%nat
+  | [] => (* out of scope (the header-extension member below refuses it): nothing is sent *)
+          if in_scope_w c (tb tbl qi) then 91%nat else 0%nat
   | q' :: rest => if negb (upto_tccb sid (tb tbl qi) q') then 92%nat
                   else if negb (forallb (is_fec c) rest) then 93%nat else 0%nat
   end.
